@@ -3,7 +3,7 @@
     arithmetic, [sp_*] = the contract automaton over the log of recorded results). *)
 From EG.lib Require Import Base.
 From EG.model Require Import CB CBCheck.
-From EG.proofs Require Import CBProofsWin CBProofsRef CBProofs CBProofsChk CBProofsSound.
+From EG.proofs Require Import CBProofsWin CBProofsRef CBProofs CBProofsChk CBProofsSound CBProofsBurst.
 Open Scope Z_scope.
 
 (** *** refinement: ring buffers = abstract views, concrete breaker = automaton *)
@@ -273,6 +273,15 @@ Theorem C08_sound_stale_results_no_effect : forall pol t0 ops obs,
   epoch_results pol (history_before (S k) ops obs) = epoch_results pol (history_before k ops obs).
 Proof. exact sound_stale_results_no_effect. Qed.
 Print Assumptions C08_sound_stale_results_no_effect.
+
+(** the arithmetic shortcut of the "burst" group (many results within one second of a time-based
+    window) is the unrolled fold: under [burst_guard], k+1 further recorded successes equal one
+    [tw_add] of k+1 on the bucket of that second and on the window total *)
+Theorem C08_burst_fold : forall pol now id (k : nat) c w i,
+  burst_guard pol now id c = Some (w, i) ->
+  Nat.iter (S k) (rec1 pol now id) c = set_win c (WT (tw_add i (Z.of_nat (S k)) w)).
+Proof. exact burst_fold. Qed.
+Print Assumptions C08_burst_fold.
 
 (** *** wrapper and pool *)
 
